@@ -214,16 +214,16 @@ func (f *Findings) Known(property, key string) *Finding {
 // Violation is one oracle failure. Key is the finding identity (stable across
 // seeds: oracle + site, never a line number, pointer or seed).
 type Violation struct {
-	Property string          `json:"property"`
-	Oracle   string          `json:"oracle"`
-	Key      string          `json:"key"`
-	Detail   string          `json:"detail"`
-	Seed     uint64          `json:"seed"`
-	LogHash  string          `json:"log_hash"`
-	LogTail  []string        `json:"log_tail,omitempty"`
-	Scenario json.RawMessage `json:"scenario"`
-	Minimised bool           `json:"minimised"`
-	Original json.RawMessage `json:"original_scenario,omitempty"`
+	Property  string          `json:"property"`
+	Oracle    string          `json:"oracle"`
+	Key       string          `json:"key"`
+	Detail    string          `json:"detail"`
+	Seed      uint64          `json:"seed"`
+	LogHash   string          `json:"log_hash"`
+	LogTail   []string        `json:"log_tail,omitempty"`
+	Scenario  json.RawMessage `json:"scenario"`
+	Minimised bool            `json:"minimised"`
+	Original  json.RawMessage `json:"original_scenario,omitempty"`
 }
 
 func (v *Violation) Error() string {
@@ -327,8 +327,8 @@ type Budget struct {
 }
 
 func NewBudget(d time.Duration) *Budget { return &Budget{start: time.Now(), limit: d} }
-func (b *Budget) Exceeded() bool         { return b.limit > 0 && time.Since(b.start) > b.limit }
-func (b *Budget) Elapsed() float64       { return time.Since(b.start).Seconds() }
+func (b *Budget) Exceeded() bool        { return b.limit > 0 && time.Since(b.start) > b.limit }
+func (b *Budget) Elapsed() float64      { return time.Since(b.start).Seconds() }
 
 // Tier reads VERIF_TIER or the given default.
 func Tier(def string) string {
